@@ -238,7 +238,8 @@ def dup_case(ctx, k):
             if r0.rc != 0:
                 return
         shape = rng.choice(["two-record-outputs", "two-record-outputs", "record-and-text", "pair-same-file", "pair-shared-first-file",
-                            "stdout-and-dash", "expanded-name-shares-one-file", "two-spellings", "two-spellings", "text-equals-expanded-name", "expanded-pair-same-file"])
+                            "stdout-and-dash", "expanded-name-shares-one-file", "two-spellings", "two-spellings", "text-equals-expanded-name", "expanded-pair-same-file",
+                            "redirect-equals-expanded-name", "redirect-equals-expanded-name"])
         ctx.count("duplicate_path_shape:" + shape)
         if shape == "two-spellings":
             # one file under two spellings
@@ -283,6 +284,40 @@ def dup_case(ctx, k):
             if got != 2 * n_out:
                 ctx.violation("duplicate-path-clobbered", f"both files of a pair expand to e.{nm}-{nm}.fq; exit 0, {n_out} pairs written, the file holds {got} parseable records; argv={argv}",
                               case, facts=dict(shape=shape))
+            return
+        if shape == "redirect-equals-expanded-name":
+            # the file of a filter redirect is also the demultiplexed file of one adapter (or of the reads without adapter)
+            nm = rng.choice([ad["name"], ad["name"], "unknown"])
+            paired = rng.random() < 0.4
+            which2 = rng.choice(["too-short", "too-long"])
+            flt = ["-m", "12"] if which2 == "too-short" else ["-M", "18"]
+            if paired:
+                argv = ad["argv"] + flt + [f"--{which2}-output", f"r.{nm}.1.fq", f"--{which2}-paired-output", f"r.{nm}.2.fq",
+                                           "-o", "r.{name}.1.fq", "-p", "r.{name}.2.fq", "--json", "rep.json"] + inputs + inputs
+                finals = [f"r.{x}.1.fq" for x in (ad["name"], "unknown")]
+            else:
+                argv = ad["argv"] + flt + [f"--{which2}-output", f"r.{nm}.fq", "-o", "r.{name}.fq", "--json", "rep.json"] + (["-j", "2"] if rng.random() < 0.3 else []) + inputs
+                finals = [f"r.{x}.fq" for x in (ad["name"], "unknown")]
+            run = climon.run(d, argv, tag="dup", trace=False)
+            ctx.count("duplicate_path_runs")
+            ctx.case(("dup", str(argv), shape))
+            case = climon.case_record(argv, d, inputs)
+            case["dup_k"] = k
+            if run.rc != 0:
+                ctx.count("duplicate_path_refused")
+                return
+            n_out = run.json_report()["read_counts"]["output"]
+            got = 0
+            for f in finals:
+                fo = run.records(f)
+                if fo and fo[0] != "error":
+                    got += len(fo[1])
+                elif fo:
+                    got = None
+                    break
+            if got != n_out:
+                ctx.violation("duplicate-path-clobbered", f"the redirect file of --{which2}-output is also the demultiplexed file r.{nm}.*; exit 0, report says {n_out} "
+                              f"reads written, the demultiplexed files hold {got} parseable records; argv={argv}", case, facts=dict(shape=shape))
             return
         if shape == "text-equals-expanded-name":
             nm = ad["name"]
@@ -357,7 +392,12 @@ def dup_case(ctx, k):
         want = sorted(fastx.rid(r[0]) for r in recs)
         if shape == "pair-same-file":
             want = sorted(want + want)    # both mates of every pair
-        if ids != want:
+        n_out = run.json_report()["read_counts"]["output"]
+        if shape == "two-record-outputs" and ids is not None and ids == want and len(ids) != n_out:
+            # nothing clobbered, but the final output file also holds the redirected reads
+            ctx.violation("duplicate-path-clobbered", f"the path {name} was accepted as -o and as a redirect file (file existed before: {preexisting}); exit 0, report says "
+                          f"{n_out} reads written, the file holds {len(ids)} records; argv={argv}", case, facts=dict(preexisting=preexisting, shape=shape))
+        elif ids != want:
             ctx.violation("duplicate-path-clobbered", f"the path {name} was accepted for two outputs (file existed before: {preexisting}); exit 0, report says "
                           f"{run.json_report()['read_counts']}, but the file holds {None if ids is None else len(ids)} parseable records of {len(recs)} reads; argv={argv}",
                           case, facts=dict(preexisting=preexisting))
